@@ -96,6 +96,35 @@ def _std_grid(rng: Rng, fam, m):
 EXHAUSTIVE = dict(quick=False, thorough=True)
 
 
+def _multi_case(rng: Rng):
+    """Wrapper chain MultivariateBasis -> Basis -> _simulate_basis -> family: components of different dimension
+    (1-D string names and 2-D tuple names), every option non-default some of the time."""
+    N = rng.choice([4, 4, 6, 6, 8, 9])
+    splits = {4: [(2, 2)], 6: [(2, 3), (3, 2)], 8: [(2, 4), (4, 2)], 9: [(3, 3)]}[N]
+    comps = []
+    for _ in range(rng.choice([2, 2, 3])):
+        if rng.random() < 0.6:
+            n = list(rng.choice(splits))
+            fams = [rng.choice(FAMILIES + ["bsplines"]) for _ in n]
+        else:
+            n = [N]
+            fams = [rng.choice(FAMILIES + ["bsplines"])]
+        comps.append(dict(fam=fams, n=n))
+    if not any(len(c["n"]) == 2 and "bsplines" in c["fam"] for c in comps):
+        comps[0] = dict(fam=["bsplines", rng.choice(FAMILIES)] if rng.random() < 0.5 else [rng.choice(FAMILIES), "bsplines"], n=list(rng.choice(splits)))
+    add = rng.random() < 0.6
+    nmin = min(n + (0 if add else 1) for c in comps for f, n in zip(c["fam"], c["n"]) if f == "bsplines")
+    p = rng.choice([q for q in (1, 1, 2, 2, 3, 4, None) if (q or 3) < nmin] or [1])
+    for c in comps:
+        c["x"] = [[rs(v) for v in _std_grid(rng, f, rng.randint(3, 6))] for f in c["fam"]]
+    bsx = [F(v) for c in comps for f, x in zip(c["fam"], c["x"]) if f == "bsplines" for v in x]
+    case = dict(kind="multi", comps=comps, p=p, add=add, norm=rng.random() < 0.4)
+    if rng.random() < 0.5:  # explicit domain, wider than every B-spline grid
+        case["dmin"] = rs(min(bsx) - rng.choice([0, Fraction(1, 2), 1]))
+        case["dmax"] = rs(max(bsx) + rng.choice([0, Fraction(1, 4), 2]))
+    return case
+
+
 def gen_cases(rng: Rng, tier):
     n = dict(quick=330, thorough=4400)[tier]
     big = tier == "thorough"
@@ -205,14 +234,14 @@ def gen_cases(rng: Rng, tier):
             g1, g2 = _std_grid(rng, f1, m1), _std_grid(rng, f2, m2)
             while iso and g1 == g2:
                 g2 = _std_grid(rng, f2, m2)
-            yield dict(kind=kind, fam=[f1, f2], n=[n1, n2], p=p, add=rng.random() < 0.6, norm=rng.random() < 0.3,
-                       x1=[rs(v) for v in g1], x2=[rs(v) for v in g2], iso=iso)
+            c = dict(kind=kind, fam=[f1, f2], n=[n1, n2], p=p, add=rng.random() < 0.6, norm=rng.random() < 0.3,
+                     x1=[rs(v) for v in g1], x2=[rs(v) for v in g2], iso=iso)
+            if "bsplines" in (f1, f2) and rng.random() < 0.5:  # explicit domain through the n-D Basis wrapper
+                bsx = [v for f, g in ((f1, g1), (f2, g2)) if f == "bsplines" for v in g]
+                c.update(dmin=rs(min(bsx) - rng.choice([0, Fraction(1, 2), 1])), dmax=rs(max(bsx) + rng.choice([0, Fraction(1, 4), 2])))
+            yield c
         elif kind == "multi":
-            f1, f2 = rng.choice(FAMILIES), rng.choice(FAMILIES)
-            p = rng.randint(1, 3)
-            n1 = n2 = rng.randint(p + 1, 7)  # a multivariate object needs the same number of functions per component
-            yield dict(kind=kind, fam=[f1, f2], n=[n1, n2], p=p, add=rng.random() < 0.6, norm=rng.random() < 0.5,
-                       x1=[rs(v) for v in _std_grid(rng, f1, rng.randint(4, 9))], x2=[rs(v) for v in _std_grid(rng, f2, rng.randint(4, 9))])
+            yield _multi_case(rng)
         elif kind == "reject":
             which = rng.choice(["name", "nseg0", "flat"])
             p = rng.randint(1, 4)
@@ -256,6 +285,16 @@ def _bs_kwargs(case):
     if "p" in case:
         kw["degree"] = case["p"]
     if "dmin" in case and not case.get("default_dom"):
+        kw["domain_min"] = float(F(case["dmin"]))
+        kw["domain_max"] = float(F(case["dmax"]))
+    return kw
+
+
+def _multi_kwargs(case):
+    kw = {}
+    if case.get("p") is not None:
+        kw["degree"] = case["p"]
+    if "dmin" in case:
         kw["domain_min"] = float(F(case["dmin"]))
         kw["domain_max"] = float(F(case["dmax"]))
     return kw
@@ -336,7 +375,7 @@ def run_impl(case):
         else:
             G = np.array([[np.trapz(v[i] * v[j], x) for j in range(len(v))] for i in range(len(v))])
         out["G"] = G.tolist()
-    elif kind in ("basis2", "multi"):
+    elif kind == "basis2":
         from FDApy.representation.argvals import DenseArgvals
         from FDApy.representation.basis import Basis, MultivariateBasis
 
@@ -344,20 +383,41 @@ def run_impl(case):
         f1, f2 = case["fam"]
         n1, n2 = case["n"]
         kw = {"degree": case["p"]} if "bsplines" in (f1, f2) else {}
-        if kind == "basis2":
+        if "dmin" in case:
+            kw.update(domain_min=float(F(case["dmin"])), domain_max=float(F(case["dmax"])))
+        if True:
             arg = DenseArgvals({"input_dim_0": x1, "input_dim_1": x2})
             b = Basis(name=(f1, f2), n_functions=(n1, n2), argvals=arg, is_normalized=case["norm"], add_intercept=case["add"], **kw)
             out["shape"] = list(b.values.shape)
             out["v"] = np.asarray(b.values).reshape(b.values.shape[0], -1).tolist()
             out["m1"] = _sim(f1, x1, n1, case["norm"], case["add"], **kw).tolist()
             out["m2"] = _sim(f2, x2, n2, case["norm"], case["add"], **kw).tolist()
-        else:
-            args = [DenseArgvals({"input_dim_0": x1}), DenseArgvals({"input_dim_0": x2})]
-            nrm = bool(case.get("norm", False))
-            mb = MultivariateBasis(name=[f1, f2], n_functions=[n1, n2], argvals=args, is_normalized=nrm, add_intercept=case["add"], **kw)
-            out["n_functional"] = int(mb.n_functional)
-            out["comp"] = [np.asarray(c.values).tolist() for c in mb.data]
-            out["ref"] = [_sim(f1, x1, n1, nrm, case["add"], **kw).tolist(), _sim(f2, x2, n2, nrm, case["add"], **kw).tolist()]
+    elif kind == "multi":
+        from FDApy.representation.argvals import DenseArgvals
+        from FDApy.representation.basis import Basis, MultivariateBasis
+
+        kw = _multi_kwargs(case)
+        comps = case["comps"]
+        names = [c["fam"][0] if len(c["fam"]) == 1 else tuple(c["fam"]) for c in comps]
+        nfs = [c["n"][0] if len(c["n"]) == 1 else tuple(c["n"]) for c in comps]
+        args = [DenseArgvals({f"input_dim_{k}": _arr(x) for k, x in enumerate(c["x"])}) for c in comps]
+        mb = MultivariateBasis(name=names, n_functions=nfs, argvals=args, is_normalized=case["norm"], add_intercept=case["add"], **kw)
+        out["n_functional"] = int(mb.n_functional)
+        out["shapes"] = [list(np.shape(c.values)) for c in mb.data]
+        flat = lambda v: np.asarray(v).reshape(np.shape(v)[0], -1)  # noqa: E731
+        out["comp"] = [flat(c.values).tolist() for c in mb.data]
+        # the same component built directly, with the same arguments
+        out["direct"] = [flat(Basis(name=nm, n_functions=nf, argvals=ar, is_normalized=case["norm"], add_intercept=case["add"], **kw).values).tolist()
+                         for nm, nf, ar in zip(names, nfs, args)]
+        # the marginal families, with the same options
+        out["marg"] = [[_sim(f, _arr(x), n, case["norm"], case["add"], **kw).tolist() for f, n, x in zip(c["fam"], c["n"], c["x"])] for c in comps]
+        try:
+            from FDApy.simulation.karhunen import KarhunenLoeve
+
+            kl = KarhunenLoeve(n_functions=nfs, basis_name=names, argvals=args, is_normalized=case["norm"], add_intercept=case["add"], **kw)
+            out["kl"] = [flat(c.values).tolist() for c in kl.basis.data]
+        except Exception as e:  # noqa: BLE001
+            out["kl_error"] = err_class(e) + ": " + str(e)[:120]
     elif kind == "reject":
         x = _arr(case["x"])
         try:
@@ -407,6 +467,18 @@ def model_lines(case, impl):
         if not (_finite(np.array(impl["m1"])) and _finite(np.array(impl["m2"]))):
             return []  # a marginal function has zero norm on this grid: 0/0 under normalisation
         return [f"b2 {mat([[F(v) for v in r] for r in impl['m1']])} {mat([[F(v) for v in r] for r in impl['m2']])}"]
+    if kind == "multi":
+        lines = []
+        for c, mg in zip(case["comps"], impl["marg"]):
+            if len(c["n"]) == 2 and _finite(np.array(mg[0])) and _finite(np.array(mg[1])):
+                lines.append(f"b2 {mat([[F(v) for v in r] for r in mg[0]])} {mat([[F(v) for v in r] for r in mg[1]])}")
+            for f, n, x in zip(c["fam"], c["n"], c["x"]):
+                if f == "bsplines":
+                    xs = _Fv(x)
+                    a, b = (F(case["dmin"]), F(case["dmax"])) if "dmin" in case else (min(xs), max(xs))
+                    p = case["p"] if case.get("p") is not None else 3
+                    lines.append(f"simbs {rs(a)} {rs(b)} {n} {p} {'1' if case['add'] else '0'} {J(x)}")
+        return lines
     if kind == "reject" and case["which"] != "name":
         return [f"bs {case['dmin']} {case['dmax']} {case['nfun']} {case['p']} {J(case['x'])}"]
     return []
@@ -459,6 +531,31 @@ def compare(case, impl, model):
         if outs[0].startswith("error") != (impl["result"] != "finite"):
             return [f"model says {outs[0][:30]} but the implementation returned {impl['result']}"]
         return []
+    if kind == "multi":
+        ds, k = [], 0
+        for ci, (c, mg) in enumerate(zip(case["comps"], impl["marg"])):
+            if len(c["n"]) == 2 and _finite(np.array(mg[0])) and _finite(np.array(mg[1])):
+                Q = pmat(outs[k]); k += 1
+                ds += _cmp_matrix(f"component {ci} (tensor product)", impl["comp"][ci], Q, lambda i, j: 4 * EPS * abs(float(Q[i][j])) + 1e-300)
+            for mi, (f, n, x) in enumerate(zip(c["fam"], c["n"], c["x"])):
+                if f != "bsplines":
+                    continue
+                o = outs[k]; k += 1
+                if o.startswith("error") or o.startswith("bad"):
+                    ds.append(f"model rejects marginal {mi} of component {ci}: {o}")
+                    continue
+                if case["norm"]:
+                    continue  # normalised marginals are covered by the sim cases; here the options matter
+                xs = _Fv(x)
+                a, b = (F(case["dmin"]), F(case["dmax"])) if "dmin" in case else (min(xs), max(xs))
+                V, sc = o.split(" ")
+                Q2, sc = pmat(V), pvec(sc)
+                pc = dict(p=case["p"] if case.get("p") is not None else 3)
+                tols = [_bs_tol(pc, s_, a, b, n if case["add"] else n + 1) for s_ in sc]
+                ds += _cmp_matrix(f"component {ci} marginal {mi} (bsplines, options)", mg[mi], Q2, lambda i, j: tols[j])
+            if ds:
+                break
+        return ds
     if kind == "simedge":
         if outs[0].startswith("error") != (impl["result"] != "finite"):
             return [f"model says {outs[0][:30]} but the implementation returned {impl['result']}"]
@@ -709,12 +806,39 @@ def oracle(case, impl):
             f, a_, b_ = np.unravel_index(np.abs(V - want).argmax(), V.shape)
             bad("tensor_row_major", f"values[{f},{a_},{b_}] = {V[f, a_, b_]!r} but V1[{f // n2},{a_}]·V2[{f % n2},{b_}] = {want[f, a_, b_]!r}", "Basis")
     elif kind == "multi":
-        if impl["n_functional"] != 2:
-            bad("shape", "MultivariateBasis does not have two components", "MultivariateBasis")
-        for c, r in zip(impl["comp"], impl["ref"]):
-            if not np.array_equal(np.array(c), np.array(r), equal_nan=True):
-                bad("basis_values", "MultivariateBasis component differs from the marginal basis", "MultivariateBasis")
+        comps = case["comps"]
+        if impl["n_functional"] != len(comps):
+            bad("shape", f"MultivariateBasis has {impl['n_functional']} components, expected {len(comps)}", "MultivariateBasis")
+            return vs
+        opts = f"degree={case.get('p')}, domain={'explicit' if 'dmin' in case else 'default'}, is_normalized={case['norm']}, add_intercept={case['add']}"
+        for ci, c in enumerate(comps):
+            V = np.array(impl["comp"][ci])
+            want_shape = [int(np.prod(c["n"]))] + [len(x) for x in c["x"]]
+            if impl["shapes"][ci] != want_shape:
+                bad("shape", f"component {ci} has shape {impl['shapes'][ci]}, expected {want_shape}", "MultivariateBasis")
                 break
+            # every option must reach the component: same as Basis(...) with the same arguments
+            if not np.array_equal(V, np.array(impl["direct"][ci]), equal_nan=True):
+                bad("options_forwarded", f"component {ci} (name {c['fam']}) of MultivariateBasis differs from Basis(...) built with the same arguments ({opts})", "MultivariateBasis")
+                break
+            mg = [np.array(m_) for m_ in impl["marg"][ci]]
+            want = mg[0] if len(mg) == 1 else np.einsum("ia,jb->ijab", mg[0], mg[1]).reshape(V.shape[0], -1)
+            if not np.allclose(V, want, rtol=1e-14, atol=1e-300, equal_nan=True):
+                bad("tensor_row_major", f"component {ci} (name {c['fam']}) is not the (tensor product of the) marginal famil(y/ies) evaluated with the same options ({opts})", "MultivariateBasis")
+                break
+            if "kl" in impl and not np.array_equal(V, np.array(impl["kl"][ci]), equal_nan=True):
+                bad("options_forwarded", f"KarhunenLoeve(basis_name=[...], ...).basis component {ci} differs from MultivariateBasis with the same arguments ({opts})", "KarhunenLoeve")
+                break
+            # exact Cox-de Boor evaluation of the B-spline marginals under the requested degree / domain
+            if not case["norm"]:
+                for f, n, x, m_ in zip(c["fam"], c["n"], c["x"], impl["marg"][ci]):
+                    if f == "bsplines":
+                        xs = _Fv(x)
+                        a_, b_ = (F(case["dmin"]), F(case["dmax"])) if "dmin" in case else (min(xs), max(xs))
+                        p_ = case["p"] if case.get("p") is not None else 3
+                        _oracle_bs(m_, xs, a_, b_, n if case["add"] else n + 1, p_, "_simulate_basis", bad, row0=0 if case["add"] else 1)
+        if "kl_error" in impl:
+            bad("runs", f"KarhunenLoeve with a list of basis names fails: {impl['kl_error']}", "KarhunenLoeve")
     elif kind == "reject":
         if case["which"] == "name" and impl["result"] != "error:NotImplementedError":
             bad("reject", f"unknown family {case['fam']!r} gives {impl['result']}", "_simulate_basis")
@@ -738,6 +862,9 @@ def classify(case, impl):
         tags.append(f"boundary:n-degree={case['n'] - case['p']:+d},intercept={case['add']},degree-passed={case['pass_degree']}")
         if impl and "result" in impl:
             tags.append("boundary-result:" + impl["result"].split(":")[0])
+    if case["kind"] == "multi":
+        tags.append("multi:dims=" + "+".join(str(len(c["n"])) for c in case["comps"]))
+        tags.append(f"multi:degree={case.get('p')},domain={'explicit' if 'dmin' in case else 'default'}")
     if case.get("iso"):
         tags.append("2d-isotropic-equal-length-different-grids")
     if "p" in case and case["kind"] in ("bs", "sim"):
